@@ -1,3 +1,404 @@
-/- C09 property theorems (not written yet) -/
+/-
+C09 — the request body stream never over-reads, truncates or hangs.
+Property theorems only (helper lemmas live in Lemmas/LimitedStream.lean).
+-/
+import WzVerif.Model.LimitedStream
+import WzVerif.Lemmas.LimitedStream
+import WzVerif.Gen.InputStream
 namespace Wz.Props.C09
+open Wz Wz.LS Wz.Gen.InputStream
+
+/-- the declared length is usable: CONTENT_LENGTH present and the request is not chunked -/
+def hasLength (r : Row) : Bool := r.cl.isSome && !r.chunked
+
+/-- The hand model of `get_input_stream` / `get_content_length` returns exactly what the live
+function returned on every row of the regenerated table (complete product of CONTENT_LENGTH
+spellings × chunked × wsgi.input_terminated × max_content_length × safe_fallback). -/
+theorem table_matches_model :
+    ∀ r ∈ table, getInputStream r.cl r.chunked r.terminated r.max r.safe = r.result := by
+  decide +kernel
+
+/-- Live table: a request with no usable length on a server that does not terminate its input
+gets the empty stream when `safe_fallback` is on. -/
+theorem table_no_length_empty :
+    ∀ r ∈ table, hasLength r = false → r.terminated = false → r.safe = true → r.result = .empty := by
+  decide +kernel
+
+/-- Bool form of "declared length > max ⇒ 413" for one row -/
+def overMaxOk (r : Row) : Bool :=
+  match getContentLength r.cl r.chunked, r.max with
+  | some n, some m => !(decide (n > m)) || r.result == .tooLarge
+  | _, _ => true
+
+/-- Live table: a declared length above `max_content_length` raises RequestEntityTooLarge,
+whatever the other inputs are. -/
+theorem table_over_max_413 :
+    ∀ r ∈ table, ∀ n m, getContentLength r.cl r.chunked = some n → r.max = some m → n > m →
+      r.result = .tooLarge := by
+  intro r hr n m h1 h2 h3
+  have key : table.all overMaxOk = true := by decide +kernel
+  have := List.all_eq_true.mp key r hr
+  simp only [overMaxOk, h1, h2] at this
+  simpa [h3] using this
+
+/-- Bool form of "terminated ∧ max ⇒ LimitedStream(max, is_max=True) (or 413)" for one row -/
+def termMaxOk (r : Row) : Bool :=
+  match r.max with
+  | some m => !r.terminated || r.result == .limited m true || r.result == .tooLarge
+  | none => true
+
+/-- Live table: terminated input with a maximum is wrapped as `LimitedStream(max, is_max=True)`
+(unless the declared length already exceeds the maximum, which is a 413). -/
+theorem table_terminated_max :
+    ∀ r ∈ table, ∀ m, r.terminated = true → r.max = some m →
+      r.result = .limited m true ∨ r.result = .tooLarge := by
+  intro r hr m h1 h2
+  have key : table.all termMaxOk = true := by decide +kernel
+  have := List.all_eq_true.mp key r hr
+  simp only [termMaxOk, h2, h1] at this
+  simpa using this
+
+/-- Bool form of "a non-maximum limit is the parsed Content-Length, positive only for plain ASCII
+digits" for one row -/
+def declaredOk (r : Row) : Bool :=
+  match r.result with
+  | .limited n false =>
+    getContentLength r.cl r.chunked == some n &&
+      (n == 0 || (match r.cl with | some v => (Py.strip v).all isAsciiDigit | none => false))
+  | _ => true
+
+/-- Live table: a limit that is not a maximum is always the parsed Content-Length, and text that
+is not plain ASCII digits (negative, garbage, `+5`, `1_0`, non-ASCII digits) limits the body to 0. -/
+theorem table_declared_limit :
+    ∀ r ∈ table, ∀ n, r.result = .limited n false →
+      getContentLength r.cl r.chunked = some n ∧
+      (n > 0 → ∃ v, r.cl = some v ∧ (Py.strip v).all isAsciiDigit = true) := by
+  intro r hr n h
+  have key : table.all declaredOk = true := by decide +kernel
+  have := List.all_eq_true.mp key r hr
+  simp only [declaredOk, h, Bool.and_eq_true, Bool.or_eq_true, beq_iff_eq] at this
+  refine ⟨this.1, fun hn => ?_⟩
+  rcases this.2 with h0 | h2
+  · omega
+  · cases hcl : r.cl with
+    | none => simp [hcl] at h2
+    | some v => exact ⟨v, rfl, by simpa [hcl] using h2⟩
+
+/-! ### the model of `get_input_stream` for every input (not only the table rows) -/
+
+/-- For every CONTENT_LENGTH text, maximum and flag combination: no usable length ∧ input not
+terminated ∧ safe_fallback ⇒ the empty stream; declared length > max ⇒ 413;
+terminated ∧ max ⇒ `LimitedStream(max, is_max=True)` unless 413; and a limit that is not a
+maximum is always the declared length. -/
+theorem get_input_stream_choice (cl : Option (List Char)) (chunked terminated safe : Bool)
+    (max : Option Nat) :
+    (getContentLength cl chunked = none → terminated = false → safe = true →
+      getInputStream cl chunked terminated max safe = .empty) ∧
+    (∀ n m, getContentLength cl chunked = some n → max = some m → n > m →
+      getInputStream cl chunked terminated max safe = .tooLarge) ∧
+    (∀ m, terminated = true → max = some m →
+      getInputStream cl chunked terminated max safe = .limited m true ∨
+      getInputStream cl chunked terminated max safe = .tooLarge) ∧
+    (∀ n, getInputStream cl chunked terminated max safe = .limited n false →
+      getContentLength cl chunked = some n ∧ terminated = false) := by
+  refine ⟨?_, ?_, ?_, ?_⟩
+  · intro h1 h2 h3
+    simp [getInputStream, h1, h2, h3]
+  · intro n m h1 h2 h3
+    simp [getInputStream, h1, h2, h3]
+  · intro m h1 h2
+    subst h1 h2
+    cases hn : getContentLength cl chunked with
+    | none => simp [getInputStream, hn]
+    | some n => by_cases hgt : n > m <;> simp [getInputStream, hn, hgt]
+  · intro n h
+    cases hn : getContentLength cl chunked with
+    | none =>
+      cases max <;> cases terminated <;> cases safe <;> simp [getInputStream, hn] at h
+    | some k =>
+      cases max with
+      | none =>
+        cases terminated <;> simp [getInputStream, hn] at h
+        exact ⟨by rw [h], rfl⟩
+      | some m =>
+        by_cases hgt : k > m <;> cases terminated <;> simp [getInputStream, hn, hgt] at h
+        exact ⟨by rw [h], rfl⟩
+
+example : getInputStream none false false (some 4) true = .empty := by decide
+example : getInputStream (some ['9']) false true (some 4) true = .tooLarge := by decide
+example : getInputStream (some ['3']) false true (some 4) true = .limited 4 true := by decide
+example : getInputStream (some ['3']) false false (some 4) true = .limited 3 false := by decide
+
+/-- Chunked requests and absent headers have no usable length; anything else that is not plain
+ASCII digits after stripping (negative, `+5`, `1_0`, non-ASCII digits, garbage) counts as 0. -/
+theorem content_length_usable (cl : Option (List Char)) (chunked : Bool) :
+    (getContentLength cl chunked = none ↔ (chunked = true ∨ cl = none)) ∧
+    (∀ v n, cl = some v → getContentLength cl chunked = some n → 0 < n →
+      (Py.strip v).all isAsciiDigit = true) := by
+  constructor
+  · unfold getContentLength
+    cases chunked <;> cases cl <;> simp
+    split <;> simp
+  · intro v n hv h hn
+    subst hv
+    unfold getContentLength at h
+    split at h
+    · simp at h
+    · simp only at h
+      split at h
+      · rename_i i hi
+        simp only [Option.some.injEq] at h
+        unfold plainInt at hi
+        simp only at hi
+        split at hi
+        · rename_i ds hds
+          split at hi
+          · simp only [Option.some.injEq] at hi
+            subst hi
+            have : (-(digitsVal ds : Int)).toNat = 0 := by omega
+            omega
+          · simp at hi
+        · split at hi
+          · rename_i hcond
+            simp only [Bool.and_eq_true] at hcond
+            exact hcond.2
+          · simp at hi
+      · simp at h; omega
+
+example : getContentLength (some ['1', '2']) false = some 12 := by decide
+example : getContentLength (some ['-', '3']) false = some 0 := by decide
+example : getContentLength (some [Char.ofNat 65301]) false = some 0 := by decide
+
+/-! ### the stream object -/
+
+/-- **Position never passes the limit**, after every sequence of `read(n)`, `read()`, `readline`,
+`readlines`, `readinto`, `next`, `exhaust` calls and for every behaviour of the underlying stream
+(fragmenting, returning nothing, raising), with or without `readinto`, maximum or declared length. -/
+theorem pos_le_limit (data : Bytes) (script : List Beh) (limit : Nat) (isMax ri : Bool) (ops : List Op) :
+    (finalState (fresh data script limit isMax ri) ops).pos ≤ limit := by
+  obtain ⟨d, h⟩ := fresh_run data script limit isMax ri ops
+  have := h.inv.pos_le
+  rw [h.limit_eq] at this
+  exact this
+
+/-- **Bytes consumed from the server's input = position**: the wrapper never takes a byte from the
+underlying stream that it does not account for (and therefore never more than `limit`). -/
+theorem consumed_eq_pos (data : Bytes) (script : List Beh) (limit : Nat) (isMax ri : Bool) (ops : List Op) :
+    (finalState (fresh data script limit isMax ri) ops).u.taken.length =
+      (finalState (fresh data script limit isMax ri) ops).pos ∧
+    (finalState (fresh data script limit isMax ri) ops).u.taken.length ≤ limit := by
+  obtain ⟨d, h⟩ := fresh_run data script limit isMax ri ops
+  have h1 := h.inv.pos_le
+  rw [h.limit_eq] at h1
+  have h2 := h.inv.consumed
+  unfold finalState
+  exact ⟨h2, by omega⟩
+
+/-- **Output is the prefix of what the client sent**: everything `readinto` handed out so far is
+`data[:pos]`, and nothing of the client's data is lost or reordered (taken ++ unread = data). -/
+theorem output_is_prefix (data : Bytes) (script : List Beh) (limit : Nat) (isMax ri : Bool) (ops : List Op) :
+    (finalState (fresh data script limit isMax ri) ops).out
+      = data.take (finalState (fresh data script limit isMax ri) ops).pos ∧
+    (finalState (fresh data script limit isMax ri) ops).u.taken
+      ++ (finalState (fresh data script limit isMax ri) ops).u.data = data := by
+  obtain ⟨d, h⟩ := fresh_run data script limit isMax ri ops
+  unfold finalState
+  constructor
+  · rw [h.out_eq, h.pos_eq]
+    conv => rhs; rw [h.data_eq]
+    simp
+  · rw [h.taken_eq]; exact h.data_eq.symm
+
+/-- **No over-read**: every single request ever made to the underlying stream asked for at most
+`limit - (bytes consumed before it)` bytes — on all three paths of `readinto`. -/
+theorem no_overread (data : Bytes) (script : List Beh) (limit : Nat) (isMax ri : Bool) (ops : List Op) :
+    ∀ p ∈ (finalState (fresh data script limit isMax ri) ops).u.log, p.1 + p.2 ≤ limit := by
+  obtain ⟨d, h⟩ := fresh_run data script limit isMax ri ops
+  intro p hp
+  have := h.inv.no_overread p hp
+  rw [h.limit_eq] at this
+  exact this
+
+/-- the request log is not trivially empty: a single `read(5)` with limit 3 asks for 3 bytes -/
+example : (finalState (fresh [1, 2, 3, 4, 5] [] 3 false true) [.read 5]).u.log = [(0, 3)] := by decide
+
+/-- **What the application receives**: the bytes returned by the operations never exceed the limit
+in total; and as long as no operation raised, their concatenation is exactly `data[:pos]` — every
+byte taken from the server's input was handed over, in order. -/
+theorem yielded_is_prefix (data : Bytes) (script : List Beh) (limit : Nat) (isMax ri : Bool) (ops : List Op) :
+    (yielded (runOps (fresh data script limit isMax ri) ops).1).length ≤ limit ∧
+    (allOk (runOps (fresh data script limit isMax ri) ops).1 = true →
+      yielded (runOps (fresh data script limit isMax ri) ops).1
+        = data.take (runOps (fresh data script limit isMax ri) ops).2.pos) := by
+  obtain ⟨d, h⟩ := fresh_run data script limit isMax ri ops
+  have h1 := h.inv.pos_le
+  rw [h.limit_eq] at h1
+  have h2 := h.pos_eq
+  have h3 := h.ylen
+  refine ⟨by omega, fun ha => ?_⟩
+  rw [h.yall ha, h.pos_eq]
+  conv => rhs; rw [h.data_eq]
+  simp
+
+example : yielded (runOps (fresh [1, 2, 3, 4, 5] [.give 1] 4 false true) [.read 2, .readall]).1 = [1, 2, 3, 4] := by
+  decide
+
+/-- **Only the documented exceptions**: an operation raises nothing but ClientDisconnected,
+RequestEntityTooLarge (only when the limit is a maximum) or `StopIteration` from `__next__`. -/
+theorem only_expected_exceptions (s : St) (op : Op) (e : String) (h : (runOp s op).1 = .error e) :
+    e = "ClientDisconnected" ∨ (e = "RequestEntityTooLarge" ∧ s.isMax = true) ∨
+      (e = "StopIteration" ∧ op matches .next) := by
+  obtain ⟨d, _, _, herr⟩ := runOp_spec s op
+  rcases herr e h with (⟨h1, h2⟩ | h1) | h1
+  · exact Or.inr (Or.inl ⟨h1, h2⟩)
+  · exact Or.inl h1
+  · subst h1
+    cases op with
+    | next => exact Or.inr (Or.inr ⟨rfl, rfl⟩)
+    | read n =>
+      rcases readinto_error (single_err h) with ⟨h1, _⟩ | h1 <;> simp at h1
+    | readinto n =>
+      rcases readinto_error (single_err h) with ⟨h1, _⟩ | h1 <;> simp at h1
+    | readall =>
+      obtain ⟨_, _, _, he⟩ := readall_spec s
+      rcases he _ (single_err h) with ⟨h1, _⟩ | h1 <;> simp at h1
+    | exhaust =>
+      obtain ⟨_, _, _, he⟩ := exhaust_spec s
+      rcases he _ (single_err h) with ⟨h1, _⟩ | h1 <;> simp at h1
+    | readline l =>
+      obtain ⟨_, _, _, he⟩ := readline_spec s l
+      rcases he _ (single_err h) with ⟨h1, _⟩ | h1 <;> simp at h1
+    | readlines hint =>
+      obtain ⟨_, _, _, he⟩ := readlines_spec s hint
+      rcases he _ h with ⟨h1, _⟩ | h1 <;> simp at h1
+
+/-- **Short body ⇒ ClientDisconnected (one call)**: with a declared length (`is_max = False`) not yet
+reached, a call whose underlying request is starved (zero bytes) or fails raises ClientDisconnected;
+a failing underlying call does so under a maximum too. -/
+theorem short_body_disconnect_step (s : St) (size : Nat) (hlim : s.pos < s.limit) :
+    (s.isMax = false → ((s.u.call (request s size)).1 = .raised ∨ (s.u.call (request s size)).1 = .got []) →
+      (readinto s size).1 = .error "ClientDisconnected") ∧
+    ((s.u.call (request s size)).1 = .raised → (readinto s size).1 = .error "ClientDisconnected") :=
+  ⟨fun hm h => readinto_starved hm (by omega) h, fun h => readinto_raised (by omega) h⟩
+
+example : (readinto (fresh [] [] 5 false true) 3).1 = .error "ClientDisconnected" := by rfl
+example : (readinto (fresh [1, 2] [.raise] 5 true false) 3).1 = .error "ClientDisconnected" := by rfl
+
+/-- **Short body ⇒ ClientDisconnected (whole body)**: if the client sent fewer bytes than the
+declared Content-Length, `read()` raises ClientDisconnected — whatever was read before and however
+the underlying stream behaves; it can never return a silently truncated body. -/
+theorem short_body_disconnect (data : Bytes) (script : List Beh) (limit : Nat) (ri : Bool) (ops : List Op)
+    (hshort : data.length < limit) :
+    (readall (finalState (fresh data script limit false ri) ops)).1 = .error "ClientDisconnected" := by
+  obtain ⟨d, h⟩ := fresh_run data script limit false ri ops
+  unfold finalState
+  generalize (runOps (fresh data script limit false ri) ops).2 = s at h
+  have hi := h.inv
+  have hm : s.isMax = false := h.isMax_eq
+  have hl : s.limit = limit := h.limit_eq
+  have hlen : data.length = d.length + s.u.data.length := by
+    conv => lhs; rw [h.data_eq]
+    rw [List.length_append]
+  have hp := h.pos_eq
+  have hpos : s.pos < s.limit := by omega
+  obtain ⟨d2, h2, hok, herr⟩ := readall_spec s
+  cases hr : (readall s).1 with
+  | error e =>
+    rcases herr e hr with ⟨_, h3⟩ | h3
+    · rw [hm] at h3; cases h3
+    · rw [h3]
+  | ok r =>
+    exfalso
+    unfold readall at hr h2
+    have hnl : ¬ s.limit ≤ s.pos := by omega
+    simp only [hnl, if_false] at hr h2
+    have hend := readallLoop_declared (s.limit - s.pos + 1) s [] hm hi (by omega) r hr
+    have hp2 := h2.pos_eq
+    have hd2 := h2.data_eq
+    have : s.u.data.length = d2.length + (readallLoop (s.limit - s.pos + 1) s []).2.u.data.length := by
+      rw [hd2, List.length_append]
+    omega
+
+example : (readall (finalState (fresh [1, 2, 3] [.give 1] 5 false true) [.read 2])).1
+    = .error "ClientDisconnected" := by rfl
+
+/-- **Past the maximum ⇒ RequestEntityTooLarge**: once `max_content_length` bytes have been consumed,
+every read operation (`read(n)`, `read()`, `readinto`, `readline`, `next`, `readlines`) raises
+RequestEntityTooLarge and takes nothing more from the underlying stream. -/
+theorem over_max_413 (s : St) (hm : s.isMax = true) (hlim : s.limit ≤ s.pos) (n : Nat) (hint : Option Nat) :
+    runOp s (.read n) = (.error "RequestEntityTooLarge", s) ∧
+    runOp s (.readinto n) = (.error "RequestEntityTooLarge", s) ∧
+    runOp s .readall = (.error "RequestEntityTooLarge", s) ∧
+    runOp s (.readline none) = (.error "RequestEntityTooLarge", s) ∧
+    runOp s .next = (.error "RequestEntityTooLarge", s) ∧
+    runOp s (.readlines hint) = (.error "RequestEntityTooLarge", s) := by
+  have h1 : ∀ k, readinto s k = (.error "RequestEntityTooLarge", s) := fun k => readinto_at_max k hm hlim
+  have hrl : readline s none = (.error "RequestEntityTooLarge", s) := by
+    simp [readline, readlineLoop, reachedLimit, LS.read, h1]
+  have hnx : next s = (.error "RequestEntityTooLarge", s) := by simp [next, hrl]
+  refine ⟨by simp [runOp, LS.read, h1, single], by simp [runOp, h1, single], ?_, by simp [runOp, hrl, single],
+    by simp [runOp, hnx, single], ?_⟩
+  · simp [runOp, readall, hlim, onExhausted, hm, hook, single]
+  · simp [runOp, readlines, readlinesLoop, hnx]
+
+example : (runOp (finalState (fresh [1, 2, 3, 4] [] 3 true true) [.read 3]) (.read 1)).1
+    = .error "RequestEntityTooLarge" := by rfl
+
+/-- ... and a 413 is never raised before the maximum is reached. -/
+theorem no_413_before_max (s : St) (size : Nat) (hlim : s.pos < s.limit) :
+    (readinto s size).1 ≠ .error "RequestEntityTooLarge" := by
+  intro h
+  rcases readinto_error h with ⟨_, _, h3⟩ | h3
+  · omega
+  · simp at h3
+
+/-- **`read()` is exact for a declared length**: when `read()` returns normally on a
+`Content-Length`-limited stream it returns exactly the `limit - pos` bytes that were still due,
+and they are the next bytes of the client's data — for every behaviour of the underlying stream. -/
+theorem readall_exact_declared (s : St) (hi : Inv s) (hm : s.isMax = false) (r : Bytes)
+    (h : (readall s).1 = .ok r) :
+    r = s.u.data.take (s.limit - s.pos) ∧ r.length = s.limit - s.pos ∧ (readall s).2.pos = s.limit := by
+  obtain ⟨d, h2, hok, _⟩ := readall_spec s
+  have hr := hok r h
+  subst hr
+  have hposeq := h2.pos_eq
+  have hdata := h2.data_eq
+  have hend : (readall s).2.pos = s.limit := by
+    unfold readall at h ⊢
+    by_cases hl : s.limit ≤ s.pos
+    · simp only [hl, if_true]; have := hi.pos_le; omega
+    · simp only [hl, if_false] at h ⊢
+      exact readallLoop_declared _ s [] hm hi (by omega) r h
+  have hlen : r.length = s.limit - s.pos := by omega
+  refine ⟨?_, hlen, hend⟩
+  rw [hdata, ← hlen]; simp
+
+/-- **`read()` is exact when the stream delivers**: if the underlying stream never fails and never
+returns zero bytes while data remain (it may fragment arbitrarily), `read()` returns exactly the
+unread data up to the limit — all of it under a maximum, `limit - pos` bytes of it for a declared
+length that the client honoured. Termination is definitional (structural recursion on a fuel of
+`limit - pos + 1`, which `readallLoop_fuel` shows is never the reason the loop stops). -/
+theorem readall_exact (s : St) (hi : Inv s) (hf : Faithful s.u.script) (hlim : s.pos < s.limit)
+    (hcase : s.isMax = true ∨ s.limit - s.pos ≤ s.u.data.length) :
+    (readall s).1 = .ok (s.u.data.take (s.limit - s.pos)) := by
+  unfold readall
+  have : ¬ s.limit ≤ s.pos := by omega
+  simp only [this, if_false]
+  have := readallLoop_faithful (s.limit - s.pos + 1) s [] hf hi (by omega) hcase
+  simpa using this
+
+example : Faithful [.give 2, .give 1] := by
+  intro b hb
+  simp only [List.mem_cons, List.not_mem_nil, or_false] at hb
+  rcases hb with rfl | rfl
+  · exact ⟨2, rfl, by omega⟩
+  · exact ⟨1, rfl, by omega⟩
+
+example : (readall (fresh [1, 2, 3, 4, 5] [.give 2, .give 1] 4 false true)).1 = .ok [1, 2, 3, 4] := by rfl
+
+/-- the loop bound of `readall` is not a truncation: any larger fuel gives the same result -/
+theorem readall_fuel_irrelevant (s : St) (hi : Inv s) (g : Nat) (hg : s.limit - s.pos < g) :
+    readallLoop g s [] = readallLoop (s.limit - s.pos + 1) s [] :=
+  readallLoop_fuel g _ s [] hi hg (by omega)
+
 end Wz.Props.C09
